@@ -57,3 +57,19 @@ Example C09_example :
   (do b <- encode_header ex_header; do (h, r) <- decode_header (b ++ [1; 2]); do b' <- encode_header h; Ok (length b, r, bytes_eqb b b'))
   = Ok (127%nat, [1; 2], true).
 Proof. vm_compute. reflexivity. Qed.
+
+(** coordinates supplied in degrees are stored as the nearest multiple of 1e-7: for EVERY finite double
+    in range outside the near-tie class of the known finding D7 (the f64 product d * 1e7 is exactly a
+    half-integer although the exact product is not), the stored i32 is within 1/2 of the exact product *)
+Require Import PM.NearestProofs.
+From Coq Require Import Reals.
+From Flocq Require Import Core BinarySingleNaN.
+Theorem C09_nearest : forall d : f64, is_finite d = true ->
+  (Rabs (B2R d * 10000000) <= 2147483647)%R -> ~ near_tie d ->
+  (Rabs (IZR (stored_of_deg d) - B2R d * 10000000) <= / 2)%R /\ (-2147483647 <= stored_of_deg d <= 2147483647)%Z.
+Proof. exact stored_nearest. Qed.
+
+(** the known finding D7, as the model sees it: 35.19440175 is stored as 351944018 (the exact product is
+    351944017.4999999…, the f64 product exactly …017.5, and ties round away from zero) *)
+Example C09_near_tie_witness : stored_of_deg (f64_of_bits 4630149989015962752) = 351944018%Z.
+Proof. vm_compute. reflexivity. Qed.
